@@ -103,6 +103,15 @@ func (c17) Exec(h []Ev) []Ev {
 		return done > 0 && len(b) >= done, nil
 	})
 	written := make([][]byte, len(h)) // original bytes of each written packet, by step
+	// lists and byte slices handed out earlier, with the content they had when handed out:
+	// later accumulator calls must leave them alone ("an independent copy")
+	type snap struct {
+		pk   []*packet.Packet
+		want []packet.Packet
+		b    []byte
+		wb   string
+	}
+	var snaps []snap
 	dead := false
 	for i, e := range h {
 		if dead {
@@ -110,6 +119,7 @@ func (c17) Exec(h []Ev) []Ev {
 			continue
 		}
 		e["input_same"] = true
+		e["snaps_same"] = true
 		e["panic"] = guard(func() {
 			switch GS(e["op"]) {
 			case "reset":
@@ -140,6 +150,30 @@ func (c17) Exec(h []Ev) []Ev {
 				for k := range p {
 					p[k] ^= 0xa5
 				}
+			}
+			same := true
+			for _, sn := range snaps {
+				if string(sn.b) != sn.wb {
+					same = false
+				}
+				for k, q := range sn.pk {
+					if q == nil || *q != sn.want[k] {
+						same = false
+					}
+				}
+			}
+			e["snaps_same"] = same
+			{
+				sn := snap{pk: acc.Packets(), b: acc.Bytes()}
+				sn.wb = string(sn.b)
+				for _, q := range sn.pk {
+					if q != nil {
+						sn.want = append(sn.want, *q)
+					} else {
+						sn.want = append(sn.want, packet.Packet{})
+					}
+				}
+				snaps = append(snaps, sn)
 			}
 			// copy independence: scribble over what Bytes()/Packets() return, then read again
 			b1 := acc.Bytes()
